@@ -15,6 +15,16 @@ the receiving Packetizer gets generated lowered REKEY_PACKETS / REKEY_BYTES (pub
 ``packetizer_class`` kwarg) so that a re-key becomes pending through the production counters
 while the stream goes on; the reader reacts to NeedRekeyException like Transport.run (retry).
 
+Send side: each paramiko sender gets a generated send script (vlib.pkt.ScriptSock ``sends``):
+the socket accepts only part of what Packetizer.write_all offers and raises socket.timeout /
+EAGAIN between the pieces; the bytes the socket accepted are the wire every receiver reads.
+Long-lived senders: per framing class a session in which ONE keyed Packetizer sends 800-1600
+tiny pairwise different messages (state carried across send_message calls: counters, pools,
+cipher / compression contexts).  Concurrent senders: 2-3 real threads call send on one keyed
+paramiko peer at the same time (what a transport-thread reply racing a streaming user thread
+does), compression on in most cases; the receivers must deliver exactly the multiset of sent
+messages with every thread's own messages in order.
+
 Oracles: (pp) paramiko client <-> paramiko server: every receiver delivers exactly the sent
 (type, body) list, consumes every byte, then hits EOF; (p2ref) the same wire bytes decode to
 the same list with the independent vlib.refssh receiver; (ref2p) a stream produced by the
@@ -25,6 +35,7 @@ from hypothesis import strategies as st
 
 from vlib import core
 from vlib import pkt
+from vlib import pktx
 
 PROPERTY = "C01"
 LEVEL = "exploration"
@@ -39,7 +50,16 @@ RULE = (
     "timeout-inside-packet, timeout-inside-first-block, timeout-between-length-and-body) and generated lowered "
     "REKEY_PACKETS (1-6) / REKEY_BYTES (1-4000) via packetizer_class, so that need_rekey() is pending while later "
     "packets are read (classes rekey-pending-while-reading, timeout-inside-packet+rekey-pending) and "
-    "NeedRekeyException is answered by retrying like Transport.run; each session is run paramiko<->paramiko "
+    "NeedRekeyException is answered by retrying like Transport.run; per paramiko SENDER a generated send script "
+    "(socket accepts 1..N of the offered bytes, socket.timeout / EAGAIN between the pieces: classes send-partial, "
+    "send-notready-after-partial, send-eagain-after-partial, send-notready-before-first-byte), the accepted bytes are "
+    "the wire; long-lived senders (class long-lived-sender): for each of the 10 framing classes (+4 with zlib) one "
+    "session whose measured direction carries 800-1600 tiny pairwise different messages on ONE keyed Packetizer "
+    "(thorough 3000-6000), optional second key exchange in the middle; concurrent senders (class concurrent-senders, "
+    "threads:N): 2-3 real threads send 150-400 messages each through one keyed paramiko peer at the same time with a "
+    "generated interpreter switch interval, compression on in 3 of 4 cases, optional send script; oracle = both the "
+    "paramiko and the reference receiver deliver exactly the multiset of sent messages, each thread's messages in "
+    "its own order (the interleaving itself is free); each session is run paramiko<->paramiko "
     "(+reference receivers on the same bytes) and reference "
     "senders->paramiko receivers; thorough shards the full cipher x MAC x compression product over the workers. "
     "non-trivial = >=2 messages and (a recv returned less than requested inside a packet, or a timeout fell inside a "
@@ -84,6 +104,7 @@ def sanitize(case):
 
 def case_strategy(tier_quick, first_c2s=None, exclude_stale=True):
     S = pkt.strategies()
+    X = pktx.strategies()
     body_len = S.body_len_quick if tier_quick else S.body_len_full
     max_msgs = 8 if tier_quick else 50
     msgs = st.lists(S.msg(body_len), max_size=max_msgs)
@@ -124,6 +145,8 @@ def case_strategy(tier_quick, first_c2s=None, exclude_stale=True):
             "rekey_packets_s": S.rekey_packets,
             "rekey_bytes_c": S.rekey_bytes,
             "rekey_bytes_s": S.rekey_bytes,
+            "sends_c": X.sends,
+            "sends_s": X.sends,
             "pad_extra": st.lists(st.integers(0, 3), max_size=4),
             "flush": st.sampled_from(["partial", "partial", "sync", "full"]),
             "segs": segs(),
@@ -136,6 +159,151 @@ def case_strategy(tier_quick, first_c2s=None, exclude_stale=True):
         return case
 
     return base.map(post)
+
+
+LONG_SUITES = [
+    ("aes128-ctr", "hmac-sha2-256", "none"),
+    ("aes256-ctr", "hmac-sha1-96", "none"),
+    ("aes192-ctr", "hmac-sha2-512-etm@openssh.com", "none"),
+    ("aes128-cbc", "hmac-sha1", "none"),
+    ("aes256-cbc", "hmac-md5-96", "none"),
+    ("aes192-cbc", "hmac-sha2-256-etm@openssh.com", "none"),
+    ("3des-cbc", "hmac-md5", "none"),
+    ("3des-cbc", "hmac-sha1-96", "none"),
+    ("3des-cbc", "hmac-sha2-256-etm@openssh.com", "none"),
+    ("aes128-gcm@openssh.com", "hmac-sha2-256", "none"),
+    ("aes256-gcm@openssh.com", "hmac-sha2-512", "zlib"),
+    ("aes256-cbc", "hmac-sha2-512", "zlib"),
+    ("aes128-ctr", "hmac-sha2-256-etm@openssh.com", "zlib"),
+    ("3des-cbc", "hmac-sha1", "zlib@openssh.com"),
+]
+
+
+def long_strategy(suite, lo, hi, exclude_stale=True):
+    """A session whose measured direction (generated: c2s or s2c) runs ``suite`` and carries
+    lo..hi tiny pairwise different messages on ONE keyed sender, optionally split by a second
+    key exchange that keeps the suite.  No lowered re-key thresholds here (a peer that has
+    asked for a re-key tolerates only 20 more packets)."""
+    S = pkt.strategies()
+    X = pktx.strategies()
+    few = st.lists(S.msg(st.integers(0, 40)), max_size=2)
+
+    @st.composite
+    def build(draw):
+        d = draw(st.sampled_from(["c2s", "s2c"]))
+        su = list(suite)
+        authed = su[2] == "zlib@openssh.com"
+        segs = [{"op": "plain", "c2s": draw(few), "s2c": draw(few)}]
+        if authed:
+            segs.append({"op": "auth", "c2s": [], "s2c": []})
+        n = draw(st.integers(lo, hi))
+        parts = [n]
+        if draw(st.booleans()):
+            cut = draw(st.integers(1, n - 1))
+            parts = [cut, n - cut]
+        hs = set()
+        for part in parts:
+            keys = draw(S.keys(**{d: st.just(su)}).filter(lambda k: bytes(k["H"]) not in hs))
+            hs.add(bytes(keys["H"]))
+            seg = {"op": "rekey", "keys": keys, "c2s": draw(few), "s2c": draw(few), "bulk": {d: draw(X.bulk(part, part))}}
+            segs.append(seg)
+        return {
+            "kind": "long",
+            "strict": draw(st.booleans()),
+            "ext_info": draw(st.sampled_from([False, False, True])),
+            "frags_c": draw(S.frags),
+            "frags_s": draw(S.frags),
+            "timeouts_c": draw(S.timeouts),
+            "timeouts_s": draw(S.timeouts),
+            "sends_c": draw(X.sends),
+            "sends_s": draw(X.sends),
+            "pad_extra": draw(st.lists(st.integers(0, 3), max_size=4)),
+            "flush": draw(st.sampled_from(["partial", "partial", "sync", "full"])),
+            "segs": segs,
+        }
+
+    def post(case):
+        case = pkt.norm_case(case)
+        case["excluded"] = sanitize(case) if exclude_stale else 0
+        return case
+
+    return build().map(post)
+
+
+def concurrent_strategy(lo, hi):
+    """2-3 threads sending through one keyed paramiko peer; the sending direction is compressed
+    in 3 of 4 cases (the compression context is the state that spans packets)."""
+    S = pkt.strategies()
+    X = pktx.strategies()
+    comp = st.sampled_from(["zlib", "zlib", "zlib@openssh.com", "none"])
+    suite = st.tuples(S.cipher, S.mac, comp).map(list)
+    return st.fixed_dictionaries(
+        {
+            "kind": st.just("concurrent"),
+            "role": st.sampled_from(["client", "server"]),
+            "strict": st.booleans(),
+            "keys": S.keys(c2s=suite, s2c=suite),
+            "threads": st.lists(X.thread_plan(lo, hi), min_size=2, max_size=3),
+            "switch": X.switch,
+            "sends": st.one_of(st.just([]), st.just([]), X.sends_on),
+            "frags": S.frags,
+        }
+    ).map(pkt.norm_case)
+
+
+def execute_concurrent(ctx, case):
+    """Key a paramiko sender + paramiko receiver + reference receiver, then let the threads
+    send at the same time; both receivers read the wire the socket accepted."""
+    role = case["role"]
+    other = "server" if role == "client" else "client"
+    dname = "c2s" if role == "client" else "s2c"
+    keys = case["keys"]
+    c, m, z = keys[dname]
+    fc = pkt.framing_class(c, m) + ("+z" if z != "none" else "")
+    sender = pkt.PPeer(role, case["strict"], sends=case.get("sends", ()))
+    prx = pkt.PPeer(other, case["strict"], case.get("frags", ()))
+    rrx = pkt.RPeer(other, case["strict"])
+    segs = [{"op": "rekey", "keys": keys, "c2s": [], "s2c": []}]
+    if "zlib@openssh.com" in (keys["c2s"][2], keys["s2c"][2]):
+        segs.append({"op": "auth", "c2s": [], "s2c": []})
+    link = (sender, [prx, rrx])
+    bad = None
+    plans = [pktx.thread_payloads(k, plan) for k, plan in enumerate(case["threads"])]
+    try:
+        try:
+            pkt.run_session({"segs": segs}, link if dname == "c2s" else (None, []), link if dname == "s2c" else (None, []))
+        except pkt.SessionFailed as e:
+            bad = ("pp", "%s:%s" % (e.kind, e.where), e.detail)
+        if bad is None:
+            errors, hung = pktx.run_concurrent(sender, plans, case["switch"])
+            if hung:
+                bad = ("pp-concurrent", "send-hangs:" + fc, "a sender thread did not finish within %.0f s" % pktx.JOIN_TIMEOUT)
+            for k, e in enumerate(errors):
+                if e is not None and bad is None:
+                    if isinstance(e, pkt.HarnessBug):
+                        raise e
+                    bad = ("pp-concurrent", "send-raises:%s:%s" % (pkt.exc_bucket(e), fc), "thread %d: %r" % (k, e))
+        if bad is None:
+            wire = b"".join(sender.drain())
+            for r, clause in ((rrx, "p2ref-concurrent"), (prx, "pp-concurrent")):
+                r.feed(wire)
+                why = pktx.judge_concurrent(r, plans)
+                if why:
+                    bad = (clause, "%s:%s" % (why[0], fc), why[1])
+                    break
+    finally:
+        stats = dict(sender.sock.send_stats)
+        sender.close()
+        prx.close()
+    classes = ["concurrent-senders", "threads:%d" % len(plans), "framing:" + pkt.framing_class(c, m), "comp:" + z, "cipher:" + c, "mac:" + m]
+    classes.append("switch-interval:%g" % case["switch"])
+    if case["strict"]:
+        classes.append("strict-kex")
+    classes += pktx.send_classes(stats)
+    ctx.case(case, len(plans) >= 2 and all(len(p) >= 2 for p in plans), sorted(classes))
+    if bad:
+        ctx.violation(bad[0], bad[1], case, bad[2])
+    return bad is not None
 
 
 def _signature(case, e):
@@ -184,6 +352,10 @@ def _classes(case):
 
 
 def execute(ctx, case):
+    if case.get("kind") == "concurrent":
+        return execute_concurrent(ctx, case)
+    compact = case
+    case = pktx.expand_bulk(case)  # long-lived senders: "bulk" -> explicit messages (the compact form is what is recorded)
     strict = case["strict"]
     failure = None
     short_reads = 0
@@ -191,9 +363,10 @@ def execute(ctx, case):
     max_payload = 0
     sock_c = dict(timeouts=case.get("timeouts_c", ()), rekey_packets=case.get("rekey_packets_c"), rekey_bytes=case.get("rekey_bytes_c"))
     sock_s = dict(timeouts=case.get("timeouts_s", ()), rekey_packets=case.get("rekey_packets_s"), rekey_bytes=case.get("rekey_bytes_s"))
-    pc = pkt.PPeer("client", strict, case["frags_c"], **sock_c)
-    ps = pkt.PPeer("server", strict, case["frags_s"], ext_info=case["ext_info"], **sock_s)
+    pc = pkt.PPeer("client", strict, case["frags_c"], sends=case.get("sends_c", ()), **sock_c)
+    ps = pkt.PPeer("server", strict, case["frags_s"], ext_info=case["ext_info"], sends=case.get("sends_s", ()), **sock_s)
     stats = {}
+    send_stats = {}
 
     def collect(*peers):
         for p in peers:
@@ -231,9 +404,17 @@ def execute(ctx, case):
                 ps2.close()
     finally:
         collect(pc, ps)
+        for p in (pc, ps):
+            for k, v in p.sock.send_stats.items():
+                send_stats[k] = send_stats.get(k, 0) + v
         pc.close()
         ps.close()
     classes, rekeys, comp_on = _classes(case)
+    classes.update(pktx.send_classes(send_stats))
+    nbulk = pktx.bulk_count(compact)
+    if nbulk:
+        classes.add("long-lived-sender")
+        classes.add("long-lived-sender:%s" % ("<1000" if nbulk < 1000 else ">=1000"))
     if short_reads:
         classes.add("short-read-inside-packet")
     for k in (
@@ -252,13 +433,13 @@ def execute(ctx, case):
     if max_payload > 32768:
         classes.add("payload>32k")
     nmsgs = sum(len(seg["c2s"]) + len(seg["s2c"]) for seg in case["segs"])
-    nontrivial = nmsgs >= 2 and (short_reads > 0 or stats.get("timeout-inside-packet", 0) > 0 or rekeys >= 2 or comp_on or max_payload > 17)
-    ctx.case(case, nontrivial, sorted(classes))
+    nontrivial = nmsgs >= 2 and (short_reads > 0 or stats.get("timeout-inside-packet", 0) > 0 or send_stats.get("partial", 0) > 0 or rekeys >= 2 or comp_on or max_payload > 17)
+    ctx.case(compact, nontrivial, sorted(classes))
     if case.get("excluded"):
         ctx.exclude("p2ref|" + FINDING_STALE, case["excluded"])
     if failure is not None:
         clause, bucket = _signature(case, failure)
-        ctx.violation(clause, bucket, case, "%s: %s" % (failure.clause, failure.detail))
+        ctx.violation(clause, bucket, compact, "%s: %s" % (failure.clause, failure.detail))
 
 
 def run(ctx):
@@ -268,8 +449,18 @@ def run(ctx):
     ctx.assume("receivers are fed complete packets; end of the scripted stream is EOF (b'' from recv)")
     ctx.assume("compression context is re-created at every key exchange (RFC 4253 6.2) in the reference")
     ctx.assume("scripted socket timeouts / EAGAIN are raised only while unread bytes are buffered (an empty scripted stream is EOF); a pending re-key is answered by reading on, as Transport.run does, until the session script performs the next key exchange")
+    ctx.assume("concurrent senders: real threads, the interleaving is whatever the interpreter produces under the generated switch interval; the oracle does not depend on it")
+    lo, hi = (800, 1600) if ctx.quick else (3000, 6000)
+    for idx, suite in enumerate(LONG_SUITES):
+        if idx % ctx.nworkers != ctx.worker or ctx.unknown or ctx.out_of_time():
+            continue
+        ctx.explore(long_strategy(suite, lo, hi, exclude_stale=excl), lambda c: execute(ctx, c), 1 + ctx.scale(1, 2), shrink=False, seed_offset=7000 + idx)
+    if not ctx.unknown:
+        # collect-then-continue engine: after the first unlisted violation the remaining draws are skipped
+        ctx.explore(concurrent_strategy(150, 400), lambda c: None if ctx.unknown else execute_concurrent(ctx, c), ctx.scale(30, 60), shrink=False, seed_offset=7500)
     if ctx.quick:
-        ctx.explore(case_strategy(True, exclude_stale=excl), lambda c: execute(ctx, c), ctx.scale(700, 0))
+        if not ctx.unknown:
+            ctx.explore(case_strategy(True, exclude_stale=excl), lambda c: execute(ctx, c), ctx.scale(600, 0))
     else:
         triples = [(c, m, z) for c in pkt.CIPHERS for m in pkt.MACS for z in pkt.COMPRESSIONS]
         mine = [t for i, t in enumerate(triples) if i % ctx.nworkers == ctx.worker]
@@ -299,5 +490,12 @@ def run(ctx):
 
 def replay(ctx, case):
     case = pkt.norm_case(case)
+    if case.get("kind") == "concurrent":
+        # real threads: the interleaving that showed the violation is not part of the case; re-run the same
+        # senders up to 25 times (a correct tree passes all of them, the verdict never depends on the interleaving)
+        for _ in range(25):
+            if execute_concurrent(ctx, case):
+                break
+        return
     case.setdefault("excluded", 0)
     execute(ctx, case)
